@@ -36,6 +36,9 @@ type c08Scenario struct {
 	// /metrics requests and never reads the answers: its handler is parked in a
 	// socket write when the cause strikes.
 	StuckScraper bool
+	// AuditMetrics: the daemon runs with -audit-metrics (one more errgroup
+	// member: a ticker that stats the audit log), interval 20 ms.
+	AuditMetrics bool
 }
 
 var c08Causes = []string{
@@ -150,6 +153,10 @@ func c08Run(r *vlib.Run, sc c08Scenario, idx int) (evaluated bool) {
 		o.extra = []string{"-healthz", "-metrics"}
 		label += "/http-server"
 	}
+	if sc.AuditMetrics {
+		o.extra = append(o.extra, "-audit-metrics", "-audit-seconds-interval", "20ms")
+		label += "/audit-metrics"
+	}
 	scratch, _ := os.MkdirTemp("", "verif-c08-")
 	defer os.RemoveAll(scratch)
 	switch sc.Cause {
@@ -189,6 +196,9 @@ func c08Run(r *vlib.Run, sc c08Scenario, idx int) (evaluated bool) {
 	}
 	if sc.HTTP {
 		sig += ":with-http-server"
+	}
+	if sc.AuditMetrics {
+		sig += ":with-audit-metrics"
 	}
 	misconfigured := strings.Contains(sc.Cause, "-path-")
 	var ws, wa *os.File
@@ -433,6 +443,10 @@ func checkC08(r *vlib.Run) int {
 	for _, c := range []string{"SIGTERM", "sshd-pipe-eof", "malformed-audit-line"} {
 		scs = append(scs, c08Scenario{Cause: c, HTTP: true, StuckScraper: true})
 	}
+	for _, c := range c08Causes {
+		scs = append(scs, c08Scenario{Cause: c, AuditMetrics: true})
+	}
+	scs = append(scs, c08Scenario{Cause: "malformed-audit-line", HTTP: true, AuditMetrics: true}, c08Scenario{Cause: "SIGTERM", HTTP: true, AuditMetrics: true})
 	var idle, sat []int
 	for i, s := range scs {
 		if s.Saturated || s.HTTP {
@@ -449,7 +463,7 @@ func checkC08(r *vlib.Run) int {
 	for i, ok := range done {
 		if ok {
 			evals++
-			dist.Add(fmt.Sprintf("%s|%v|%v|%v|%v|%v", scs[i].Cause, scs[i].Saturated, scs[i].NoWriter, scs[i].Debug, scs[i].HTTP, scs[i].StuckScraper))
+			dist.Add(fmt.Sprintf("%s|%v|%v|%v|%v|%v", scs[i].Cause, scs[i].Saturated, scs[i].NoWriter, scs[i].Debug, scs[i].HTTP, scs[i].StuckScraper) + fmt.Sprint(scs[i].AuditMetrics))
 		}
 	}
 	r.Set("causes", c08Causes)
@@ -458,7 +472,7 @@ func checkC08(r *vlib.Run) int {
 	r.Assumptions = []string{"'saturated' is observed: the pumping writer's write(2) hit EAGAIN at least five times before the fault is injected, otherwise the scenario is inconclusive",
 		"'does not exit' is a violation only if the SIGQUIT dump shows main parked in errgroup.Wait and a worker parked; otherwise inconclusive",
 		"signals may end the process with any status; failures must give a non-zero status"}
-	return r.Finish(evals, dist.Len(), "built daemon x failure cause {sshd pipe EOF, audit pipe EOF, either pipe's EOF in the middle of a record, malformed audit line, event write failure via /dev/full, sshd/audit path is a regular file / missing / a directory, SIGTERM, SIGINT} x load {idle with writers attached, idle with the other pipe still waiting for its writer, saturated by a pumping writer} x log level {error, debug}, six causes with the HTTP health/metrics server enabled and three of them with a scrape client that never reads its answers; thorough: x3 and with the -race build; distinct = (cause, load) pairs evaluated")
+	return r.Finish(evals, dist.Len(), "built daemon x failure cause {sshd pipe EOF, audit pipe EOF, either pipe's EOF in the middle of a record, malformed audit line, event write failure via /dev/full, sshd/audit path is a regular file / missing / a directory, SIGTERM, SIGINT} x load {idle with writers attached, idle with the other pipe still waiting for its writer, saturated by a pumping writer} x log level {error, debug}, six causes with the HTTP health/metrics server enabled and three of them with a scrape client that never reads its answers, every cause with -audit-metrics (ticker member of the worker group, 20 ms); thorough: x3 and with the -race build; distinct = (cause, load) pairs evaluated")
 }
 
 func lastLineOf(s string) string {
